@@ -15,7 +15,7 @@
     trees, no two variables for one leaf, all sources agreeing on the shape at
     every path, outside the shapes of the open findings C20-F3/C20-F4. *)
 From HV Require Import Base.Prelude C20.Model C20.Spec C20.Facts C20.MergeProofs C20.LoadProofs C20.Proofs.
-From HV Require Import C20.SchemaModel Gen.SchemaTables C20.SchemaProofs C20.ScopeProofs.
+From HV Require Import C20.SchemaModel Gen.SchemaTables C20.SchemaProofs C20.ScopeProofs C20.MergePanic C20.NamingProofs.
 From Coq Require Import Permutation.
 Open Scope string_scope.
 
@@ -76,6 +76,27 @@ Theorem C20_merge_later_wins_no_panic :
 Proof. exact merge_with_view. Qed.
 Print Assumptions C20_merge_later_wins_no_panic.
 
+(** the documented naming rules: [env_name pfx segs] = prefix, segments
+    upper-cased and joined by "_", a literal underscore written "__";
+    koanfFromEnv's normalisation reads it back as the path of the segments
+    (all-digit segments as list indices) *)
+Theorem C20_env_name_read_back :
+  forall pfx segs, segs <> [] -> forallb valid_seg segs = true ->
+    normalise_key pfx (env_name pfx segs) = join "." segs /\
+    parse_path (normalise_key pfx (env_name pfx segs)) = psegs segs.
+Proof. exact env_name_read_back. Qed.
+Print Assumptions C20_env_name_read_back.
+
+(** merge.go's panic as an explicit outcome, characterised: [clash_at dest src p]
+    = at [p], reached through nodes of equal kind, [dest] holds a map or a list
+    and [src] something of another kind *)
+Theorem C20_merge_panic_iff :
+  forall sh, perm_fun sh -> forall cl dest src,
+    dest <> Nil -> src <> Nil -> Tidy dest -> Tidy src ->
+    (merge_with sh cl dest src = Panic <-> exists p, clash_at dest src p).
+Proof. exact merge_panic_iff. Qed.
+Print Assumptions C20_merge_panic_iff.
+
 (** the evaluator's executable domain check (finitely many candidate paths) is
     sound for the domain of the theorems (all paths) *)
 Theorem C20_in_scope_b_sound :
@@ -90,6 +111,17 @@ Theorem C20_domain_nonvacuous :
   exists tenv, domain (fun s => Leaf s) "P_" ex_d ex_f ex_env tenv /\ length tenv = 3.
 Proof. exact domain_nonvacuous. Qed.
 Print Assumptions C20_domain_nonvacuous.
+
+(** the hypotheses of C20_file_env_equivalent are satisfiable by a split that
+    moves a key of a list element, an element of a nested list and a map leaf
+    with a literal underscore to the environment ([split_of_b_sound] makes
+    [split_of] checkable on finitely many paths) *)
+Theorem C20_split_example :
+  exists tenv,
+    domain (fun s => Leaf s) "P_" [] ex_cf ex_cenv tenv /\ domain (fun s => Leaf s) "P_" [] ex_c [] [] /\
+    split_of ex_c ex_cf tenv.
+Proof. exact split_example. Qed.
+Print Assumptions C20_split_example.
 
 (** [schema_tbl] / [loader_tbl] are regenerated on every run from
     schema/config.schema.json and from the loader's type registries and config
